@@ -29,7 +29,7 @@ import (
 // serialises with the same lock means the mutual exclusion is gone.
 
 type seatIn struct {
-	Kind  string   // reserve | random | rebuy | leave | read | assign | remove | join | chips
+	Kind  string // reserve | random | rebuy | leave | read | assign | remove | join | chips
 	ID    string
 	Seat  int
 	IDs   []string
@@ -612,7 +612,7 @@ func c16C(c *h.Ctx) {
 	}
 	seen := map[string]bool{}
 	var accepted int64
-	turns, bursts := 0, 0
+	turns, bursts, rapid := 0, 0, 0
 	deadline := time.After(40 * time.Second)
 	settled := false
 	var last pt.Table
@@ -686,6 +686,60 @@ loop:
 				bursts++
 				close(start)
 				wg.Wait()
+				// rapid volley: the hand engine's own state has already moved on although the table snapshot may not have
+				// been published yet. If it is somebody's turn now, everybody fires again at once; in every one-at-a-time
+				// order the first applicable action of the player whose turn it is gets accepted, so at least one of his
+				// must be.
+				if g := te.GetGame(); g != nil && r.Intn(2) == 0 {
+					if g2 := g.GetGameState(); g2 != nil && g2.UpdatedAt != gs.UpdatedAt && g2.GameID == gs.GameID && g2.Status.CurrentEvent == "RoundStarted" {
+						cp2 := g2.Status.CurrentPlayer
+						if cp2 >= 0 && cp2 < len(g2.Players) && len(g2.Players[cp2].AllowedActions) > 0 {
+							var legal2 []string // amount-free kinds only: their acceptance does not depend on a size
+							for _, a := range g2.Players[cp2].AllowedActions {
+								switch a {
+								case "fold", "check", "call", "allin", "pass":
+									legal2 = append(legal2, a)
+								}
+							}
+							if len(legal2) == 0 {
+								continue
+							}
+							cur2 := h.PidOf(&t, cp2)
+							var wg2 sync.WaitGroup
+							start2 := make(chan struct{})
+							var accCur int64
+							fire2 := func(pid, actn string, chips int64) {
+								wg2.Add(1)
+								go func() {
+									defer wg2.Done()
+									<-start2
+									if err := h.DoAction(te, pid, actn, chips); err == nil && wagerActs[actn] {
+										atomic.AddInt64(&accepted, 1)
+										if pid == cur2 {
+											atomic.AddInt64(&accCur, 1)
+										}
+									}
+								}()
+							}
+							for k := 0; k < 2; k++ {
+								a := legal2[r.Intn(len(legal2))]
+								fire2(cur2, a, c16Size(r, g2, g2.Players[cp2], a))
+							}
+							for gp := range g2.Players {
+								if gp != cp2 && r.Intn(2) == 0 {
+									fire2(h.PidOf(&t, gp), []string{"fold", "call", "check", "allin"}[r.Intn(4)], 0)
+								}
+							}
+							close(start2)
+							wg2.Wait()
+							rapid++
+							if atomic.LoadInt64(&accCur) == 0 {
+								c.Violate("C16/turn-holder-refused", fmt.Sprintf("turn %d: the hand engine waits for %s (allowed %v); he and others fired at once right after the previous action had been accepted, and none of his legal actions was accepted", turns, cur2, legal2), map[string]interface{}{"players": n, "backend_calls": briefCalls(rig.Snapshot())})
+								return
+							}
+						}
+					}
+				}
 			}
 		case <-deadline:
 			break loop
@@ -738,6 +792,10 @@ loop:
 	c.Count("C_turns", int64(turns))
 	c.Count("C_accepted", applied)
 	c.Feature("C:simultaneous-actions")
+	if rapid > 0 {
+		c.Feature("C:rapid-volley-before-publication")
+		c.Count("C_rapid_volleys", int64(rapid))
+	}
 	c.Nontrivial()
 	c.FP("C", fmt.Sprint(briefCalls(calls)))
 	c.Sample(map[string]interface{}{"part": "C", "players": n, "turns_with_simultaneous_actions": turns, "accepted": applied, "backend_calls": len(calls)})
@@ -837,7 +895,7 @@ func c16D(c *h.Ctx) {
 
 // ---- race classification --------------------------------------------------
 
-var teLocked = []string{"UpdateTablePlayers", "PlayerReserve", "PlayersLeave", "PlayerReady", "PlayerPay", "PlayerBet", "PlayerRaise", "PlayerCall", "PlayerAllin", "PlayerCheck", "PlayerFold", "PlayerPass", "tableGameOpen", "updateCurrentPlayerGameStatistics"}
+var teLocked = []string{"UpdateTablePlayers", "PlayerReserve", "PlayerRedeemChips", "PlayersLeave", "PlayerReady", "PlayerPay", "PlayerBet", "PlayerRaise", "PlayerCall", "PlayerAllin", "PlayerCheck", "PlayerFold", "PlayerPass", "tableGameOpen", "updateCurrentPlayerGameStatistics"}
 var smLocked = []string{"AssignSeats", "RandomAssignSeats", "RemoveSeats", "JoinPlayers", "UpdatePlayerHasChips", "InitPositions", "RotatePositions", "IsPlayerActive", "ListPlayerSeatsFromDealer"}
 
 func lockedEntry(stack []string, recv string, names []string) string {
@@ -888,7 +946,7 @@ func init() {
 		Cases:         func(tier string) int { return map[string]int{"quick": 600, "thorough": 12000}[tier] },
 		MinNontrivial: func(tier string) int { return map[string]int{"quick": 300, "thorough": 6000}[tier] },
 		RequiredFeatures: func(string) []string {
-			return []string{"A:storm", "B:storm", "C:simultaneous-actions", "D:batch-atomicity"}
+			return []string{"A:storm", "B:storm", "C:simultaneous-actions", "C:rapid-volley-before-publication", "D:batch-atomicity"}
 		},
 		CaseTimeout:  120e9,
 		Race:         true,
